@@ -331,3 +331,114 @@ def r12i(fb, rep):
         rep.ok(R, "%d methods, %d same-value calls between them, %d discriminant switches resolved: no cycle for any of the %d x %d (representation, type kind) states" % (len(meths), n_edges, n_sw, nv, nt))
     rep.floor(R, "same-value calls between deserializer methods", n_edges, 25)
     rep.floor(R, "ValueRef / Type discriminant switches in the deserializer", n_sw, 16)
+
+
+# ---------------------------------------------------------------------------------------------------------------------------
+def _forward(body, local, depth=10):
+    """locals derived from `local` by copies/borrows *and* by being the result of a call that takes a derived local
+    (expect / unwrap / clone of the child handle)"""
+    out = set(flow.derived_locals(body, local))
+    for _ in range(depth):
+        more = set()
+        for c in body.calls():
+            if c.dest is None or c.dest[1] or c.dest[0] in out:
+                continue
+            last = c.res.rsplit("::", 1)[-1]
+            if last in ("expect", "unwrap", "clone", "unwrap_or_else", "into") and any(op_place(a) is not None and op_place(a)[0] in out for a in c.args):
+                more.add(c.dest[0])
+        if not more:
+            break
+        for m in more:
+            out |= flow.derived_locals(body, m)
+    return out
+
+
+def r12j(fb, rep):
+    """R12j — the conversion of a Gluon `std.map` (a binary tree `Bin key value left right | Tip`) to a Rust map visits the whole
+    tree: the walker reads all four fields of a `Bin` node, hands *both* children on (to a recursive call of itself or to its work
+    list), and — when it is a loop over a work list — leaves the loop only when the list is empty (no exit on a `Tip`, which would
+    drop every pending subtree).  A necessary condition for `BTreeMap` / `HashMap` values to come back equal (C11)."""
+    R = "R12j"
+    rep.rule(R, "the std.map -> Rust map conversion visits both subtrees of every node and only stops when nothing is pending")
+    entry = [b for bid, b in fb.bodies.items() if b.kind == "fn" and bid.startswith("<alloc::collections::") and "BTreeMap<K, V> as gluon_vm::api::Getable<" in bid
+             and bid.endswith("::from_value")]
+    if not entry:
+        rep.anchor_lost(R, "<BTreeMap<K, V> as Getable>::from_value")
+        return
+    walkers = []
+    for c in entry[0].calls():
+        wb = fb.body(c.res) or fb.body(c.fn)
+        if wb is not None and wb.crate.name == "gluon_vm" and any(x.res.endswith("::get_variant") for x in wb.calls()):
+            walkers.append(wb)
+    if not walkers:
+        # the impl walks the tree itself
+        if any(x.res.endswith("::get_variant") for x in entry[0].calls()):
+            walkers = [entry[0]]
+        else:
+            rep.anchor_lost(R, "the function that walks the std.map tree (reads Data::get_variant) below BTreeMap::from_value")
+            return
+    n = 0
+    for w in walkers:
+        gv = {}
+        for c in w.calls():
+            if c.res.endswith("::get_variant") and len(c.args) >= 2:
+                k = op_const(c.args[1])
+                if k is not None and k.get("int") is not None and c.dest is not None and not c.dest[1]:
+                    gv.setdefault(k["int"], []).append(c)
+        missing = [i for i in (0, 1, 2, 3) if i not in gv]
+        if missing:
+            rep.violation(R, "node-field-not-read|%s" % ",".join(map(str, missing)), "%s does not read field(s) %s of a Bin node (key, value, left, right)" % (w.id, missing), w.where())
+            continue
+        for idx, name in ((2, "left"), (3, "right")):
+            n += 1
+            handed = False
+            for c in gv[idx]:
+                der = _forward(w, c.dest[0])
+                for u in w.calls():
+                    if u is c:
+                        continue
+                    last = u.res.rsplit("::", 1)[-1]
+                    is_self = u.res == w.id or u.fn == w.id or u.res.split("::<")[0] == w.id.split("::<")[0]
+                    is_push = last in ("push", "push_back", "push_front", "extend", "extend_from_slice")
+                    if (is_self or is_push) and any(op_place(a) is not None and op_place(a)[0] in der for a in u.args):
+                        handed = True
+            if handed:
+                rep.ok(R, "%s: the %s child (field %d) is handed on to the walk" % (w.id.rsplit("::", 1)[-1], name, idx))
+            else:
+                rep.violation(R, "subtree-dropped|%s" % name, "%s reads the %s child of a Bin node but never walks it (neither a recursive call nor a push on a work list receives it)" % (w.id, name), w.where())
+        # loop form: the only way out of the loop is the empty work list
+        pops = [c for c in w.calls() if c.res.rsplit("::", 1)[-1] in ("pop", "pop_front", "pop_back") and c.dest is not None]
+        for pc in pops:
+            n += 1
+            scc = next((s for s in w.sccs() if pc.bb in s and len(s) > 1), None)
+            if scc is None:
+                continue
+            # exits of the loop: edges from a block of the SCC to a block outside that can reach a return
+            rets = {i for i, blk in enumerate(w.blocks) if blk["t"][0] == "ret"}
+            # the "empty" exit: the switch on the discriminant of the pop result
+            none_edges = set()
+            for bb, place, targets, otherwise in _disc_switches(w):
+                if bb in scc and place[0] in flow.derived_locals(w, pc.dest[0]):
+                    for val, tgt in targets.items():
+                        if val == 0:
+                            none_edges.add((bb, tgt))
+                    if 0 not in targets and otherwise is not None:
+                        none_edges.add((bb, otherwise))
+            bad = []
+            for a in scc:
+                for s in w.succ(a):
+                    if s in scc or (a, s) in none_edges:
+                        continue
+                    if rets & w.reachable(s):
+                        bad.append((a, s))
+            if bad:
+                rep.violation(R, "walk-stops-early", "%s leaves its work-list loop while nodes may still be pending (an exit other than the empty-list edge of %s reaches a return): "
+                              "the subtrees still on the list are dropped" % (w.id, pc.res.rsplit("::", 1)[-1]), w.where())
+            else:
+                rep.ok(R, "%s: the work-list loop ends only when %s yields nothing" % (w.id.rsplit("::", 1)[-1], pc.res.rsplit("::", 1)[-1]))
+    rep.floor(R, "children / work-list loops of the std.map walker examined", n, 2)
+
+
+def _disc_switches(b):
+    from .common import enum_switches_any
+    return list(enum_switches_any(b))
